@@ -220,7 +220,12 @@ extern "C" void harness_offsetpoint() {
   Path64 path; path.reserve(4); path.push_back(Point64((int64_t)0, (int64_t)0)); path.push_back(Point64((int64_t)100, (int64_t)0)); path.push_back(Point64((int64_t)100, (int64_t)100));
   co.norms.push_back(nd_normal()); co.norms.push_back(nd_normal()); co.norms.push_back(nd_normal());
   co.path_out.reserve(8);
+#ifdef OP_COORDS   // coordinates of the concave join are checked for a table of deltas (a symbolic delta times a symbolic normal is out of reach)
+  static const double DT[6] = {0.5, -0.5, 3.25, -7.0, 1e6, -1e6};
+  double delta = DT[nd_int(0, 5)];
+#else
   double delta = nondet_double(); ASSUME((delta >= 0.5 && delta <= 1e6) || (delta <= -0.5 && delta >= -1e6));
+#endif
   co.group_delta_ = delta; co.join_type_ = (JoinType)nd_int(0, 3);
   double ml = nd_in(0.0, 10.0); co.temp_lim_ = (ml <= 1) ? 2.0 : 2.0 / (ml * ml);
   ClipperOffset::Group& g = *new ClipperOffset::Group(Paths64(1, path), co.join_type_, EndType::Polygon);
@@ -232,11 +237,13 @@ extern "C" void harness_offsetpoint() {
   bool concave = cos_a > -0.999 && sin_a * delta < 0;                            // turning towards the offset side
   if (concave) {
     VA(J.n == 0 && co.path_out.size() == 3);
+#ifdef OP_COORDS
     if (co.path_out.size() == 3) {
       VA(co.path_out[1] == path[j]);                                              // the vertex itself, between ...
       VA(co.path_out[0] == Point64(path[j].x + nk.x * delta, path[j].y + nk.y * delta));   // ... the offset along the previous edge's normal
       VA(co.path_out[2] == Point64(path[j].x + nj.x * delta, path[j].y + nj.y * delta));   // ... and along this edge's normal
     }
+#endif
   } else {
     VA(J.n == 1 && co.path_out.empty() && J.j == j && J.k == k);
     JoinType jt = co.join_type_;
